@@ -25,3 +25,26 @@ Definition go_Version : list N := [118; 49; 46; 57; 46; 48].
 Definition go_CompressionZSTD : list N := [122; 115; 116; 100].
 Definition go_CompressionLZ4 : list N := [108; 122; 52].
 Definition go_CompressionNone : list N := [].
+Definition go_makeSafe_limit : N := 2147483647.
+Definition go_default_chunk_size : N := 1048576.
+Definition go_ros_primitives : list (list N) := [[98; 111; 111; 108]; [105; 110; 116; 56]; [117; 105; 110; 116; 56]; [105; 110; 116; 49; 54]; [117; 105; 110; 116; 49; 54]; [105; 110; 116; 51; 50]; [117; 105; 110; 116; 51; 50]; [105; 110; 116; 54; 52]; [117; 105; 110; 116; 54; 52]; [102; 108; 111; 97; 116; 51; 50]; [102; 108; 111; 97; 116; 54; 52]; [115; 116; 114; 105; 110; 103]; [116; 105; 109; 101]; [100; 117; 114; 97; 116; 105; 111; 110]; [99; 104; 97; 114]; [98; 121; 116; 101]].
+Definition go_ros_separator : list N := [61; 61; 61; 61; 61; 61; 61; 61; 61; 61; 61; 61; 61; 61; 61; 61; 61; 61; 61; 61; 61; 61; 61; 61; 61; 61; 61; 61; 61; 61; 61; 61; 61; 61; 61; 61; 61; 61; 61; 61; 61; 61; 61; 61; 61; 61; 61; 61; 61; 61; 61; 61; 61; 61; 61; 61; 61; 61; 61; 61; 61; 61; 61; 61; 61; 61; 61; 61; 61; 61; 61; 61; 61; 61; 61; 61; 61; 61; 61; 61; 10].
+Definition go_bag_magic : list N := [35; 82; 79; 83; 66; 65; 71; 32; 86; 50; 46; 48; 10].
+Definition py_op_ATTACHMENT : N := 9.
+Definition py_op_ATTACHMENT_INDEX : N := 10.
+Definition py_op_CHANNEL : N := 4.
+Definition py_op_CHUNK : N := 6.
+Definition py_op_CHUNK_INDEX : N := 8.
+Definition py_op_DATA_END : N := 15.
+Definition py_op_FOOTER : N := 2.
+Definition py_op_HEADER : N := 1.
+Definition py_op_MESSAGE : N := 5.
+Definition py_op_MESSAGE_INDEX : N := 7.
+Definition py_op_METADATA : N := 12.
+Definition py_op_METADATA_INDEX : N := 13.
+Definition py_op_SCHEMA : N := 3.
+Definition py_op_STATISTICS : N := 11.
+Definition py_op_SUMMARY_OFFSET : N := 14.
+Definition py_magic : list N := [137; 77; 67; 65; 80; 48; 13; 10].
+Definition py_magic_size : N := 8.
+Definition py_record_size_limit : N := 4294967296.
